@@ -68,3 +68,12 @@ CASES += [
       "        with energy_units(\"int\"):\n            self._implementation(self.Hamiltonian,\n                                 self.SystemBathInteraction)",
       "        hh, sb = self.Hamiltonian, self.SystemBathInteraction\n        with energy_units(\"int\"):\n            self._implementation(hh, sb)"),
 ]
+
+CASES += [
+    m("converted tensor not marked as holding its data (flag read by the time-dependent transform)", "C07-B", R + "redfieldtensor.py",
+      "            if True:\n                self.data = RR\n                self._data_initialized = True\n                                                         \n            self.as_operators = False",
+      "            self.data = RR\n            self.as_operators = False"),
+    t("conversion sets the flags in another order", R + "redfieldtensor.py",
+      "            if True:\n                self.data = RR\n                self._data_initialized = True\n                                                         \n            self.as_operators = False",
+      "            self.data = RR\n            self._data_initialized = True\n            self.as_operators = False"),
+]
